@@ -59,19 +59,20 @@ reading or writing anything through the pointer. -/
 def callerOptionsCloned (flow : List (String × Bool × List (String × String))) : Bool :=
   flow.all fun (f, exported, _) => !exported || clonesFirst flow 4 f
 
-/-- Lock discipline of `simpleCache`: reads of the map under the read or write lock, writes under the write
-lock; the one unlocked access is the `len` used as a capacity hint in `ShallowClone`. -/
-def lockDiscipline (acc : List (String × String × String)) : Bool :=
+/-- Lock discipline of `simpleCache`, for EVERY field of the receiver other than the lock: reads under the read
+or write lock, writes under the write lock only (a write under the read lock races with the other readers);
+the one unlocked access is the `len` used as a capacity hint in `ShallowClone`. -/
+def lockDiscipline (acc : List (String × String × String × String)) : Bool :=
   !acc.isEmpty &&
-  acc.all fun (m, kind, lock) =>
+  acc.all fun (m, kind, lock, _field) =>
     (kind == "read" && (lock == "R" || lock == "W")) ||
     (kind == "write" && lock == "W") ||
     (kind == "len" && m == "ShallowClone")
 
 /-- `Get` reads, `Set` writes: both methods touch the map (under lock, by `lockDiscipline`). -/
-def getSetPresent (acc : List (String × String × String)) : Bool :=
-  acc.any (fun (m, kind, _) => m == "Get" && kind == "read") &&
-  acc.any (fun (m, kind, _) => m == "Set" && kind == "write")
+def getSetPresent (acc : List (String × String × String × String)) : Bool :=
+  acc.any (fun (m, kind, _, f) => m == "Get" && kind == "read" && f == "store") &&
+  acc.any (fun (m, kind, _, f) => m == "Set" && kind == "write" && f == "store")
 
 /-- `schemaLoader.load` is lookup-before-fetch-then-store under one key. -/
 def loadProtocol (shape : List String) : Bool :=
